@@ -9,6 +9,7 @@ CHECKS = {
     "C15": [("R-GLOBAL", "r_global", "run_global", ("quick", "thorough"))],
     "C04": [("R-ALLOC.who", "r_global", "run_alloc_who", ("quick", "thorough")),
             ("R-TMP", "r_tmp", "run", ("quick", "thorough"))],
+    "C02": [("R-DIVZERO", "r_divzero", "run", ("quick", "thorough"))],
     "C17": [("R-STREAM", "r_stream", "run", ("quick", "thorough")),
             ("R-TMP.io", "r_tmp", "run_io", ("quick", "thorough"))],
     "C14": [("R-PURE", "r_assert", "run_pure", ("quick", "thorough")),
@@ -25,6 +26,7 @@ RULES = {
     "R-CONSTASSERT": ("r_assert", "run_constassert"),
     "R-TMP.modes": ("r_tmp", "run_modes"),
     "R-STREAM": ("r_stream", "run"),
+    "R-DIVZERO": ("r_divzero", "run"),
 }
 
 EXPLANATION = {
@@ -37,6 +39,10 @@ EXPLANATION = {
            "(R-PURE), every compile-time-constant assertion holds under each shipped tuning table (R-CONSTASSERT), and no "
            "TMP block is used after TMP_FREE or escapes (the alloca / malloc-reentrant / debug temporaries cannot differ). "
            "Kernel ABI and dispatch-contract rules are added as they are built.  Functional equivalence of kernels is not decided.",
+    "C02": "Static analysis of the division entry points: every public division / modulo / powm function of the manual tests its "
+           "divisor for zero and reaches the intentional __gmp_divide_by_zero on the zero edge before any limb-level division "
+           "routine, C division or inline-asm divide sees the divisor (guard block dominates every dangerous operation), or hands "
+           "the divisor to another function of the family in that function's divisor position.  Quotient / remainder values are not decided.",
     "C17": "Static path analysis of every library function that takes a FILE*: each stream transfer (fwrite, fputc, putc, "
            "fprintf, fread, nested library stream calls) must have its outcome learnt - its result compared with the value the "
            "call returns on success, or ferror tested - before any return that does not return the failure constant; plus "
@@ -58,6 +64,8 @@ ASSUMPTIONS = {
                "input-only (const-pointer) parameters are not read for their _mp_alloc field (fake mpz_t idiom)"],
     "R-CONSTASSERT": ["Clang's constant evaluator (Expr::EvaluateAsInt); blocks the CFG prunes as unreachable are skipped; literal ASSERT (0) markers are skipped"],
     "R-TMP.modes": ["same analysis as R-TMP restricted to the violation kinds whose behaviour differs between alloca, malloc-reentrant and debug temporaries"],
+    "R-DIVZERO": ["the division family and each function's divisor parameter are taken from the manual (spec/division_api.tsv)",
+                  "dangerous operations = calls to the mpn division / inversion / REDC kernels, C '/' and '%' and inline asm whose operand derives from the divisor"],
     "R-STREAM": ["libc failure conventions: fwrite/fread return the item count, fputc/putc/fputs return EOF, fprintf a negative value; "
                  "library stream functions return 0 on failure",
                  "getc-based parsers are not covered by this rule (EOF handling is value-dependent)"],
